@@ -155,6 +155,7 @@ class EscapeAnalysis(RuleAnalysis):
         self.ctx = ctx
         self.bindings = bindings or {}  # callable parameter name -> (FunctionInfo, receiver class)
         self.unresolved: list[ast.AST] = []
+        self.assumed_silent: set[str] = set()  # external callees outside RAISE_TABLE: assumed to raise nothing input-dependent
         self.external_sites: list[tuple[ast.AST, str]] = []
         self.gen_vars: dict[str, tuple] = {}  # local generator object -> (generator FunctionInfo, ctx, bindings)
         self.typed_locals: dict[str, list[str]] = {}  # local -> external type names (through self.m() return annotations in ctx)
@@ -297,6 +298,8 @@ class EscapeAnalysis(RuleAnalysis):
                     names = [f"{n}.{f.attr}" for n in inner]
             if names:
                 targets = names
+        if not targets:
+            self.unresolved.append(call)
         for t in targets:
             if isinstance(t, FunctionInfo):
                 if t.is_generator and not via_yield_from:
@@ -312,6 +315,8 @@ class EscapeAnalysis(RuleAnalysis):
                     obj = self.db.functions.get(t)
                     if obj is not None:
                         out += self.summ.escapes(obj, None)
+                else:
+                    self.assumed_silent.add(t)
         return out
 
     def _bindings_for(self, callee: FunctionInfo, call: ast.Call) -> dict:
@@ -388,7 +393,9 @@ class EscapeSummaries:
         self._memo: dict[tuple[str, str | None], list[str]] = {}
         self._busy: set = set()
         self.sites: dict[tuple[str, str | None], list] = {}
+        self.unresolved: dict[tuple[str, str | None], list[str]] = {}  # calls with no resolved target: assumed not to raise anything input-dependent
         self.witness: dict[tuple[str, str | None], dict[str, tuple]] = {}
+        self.assumed_silent: set[str] = set()
 
     CONTRACT = {
         # abstract methods: what their contract allows (user code is held to the documented contract)
@@ -422,6 +429,8 @@ class EscapeSummaries:
             toks = [t for t, m in out.exc.items() if m]
             self.witness[key] = {t: next(iter(m.values())) for t, m in out.exc.items() if m}
             self.sites[key] = an.external_sites
+            self.unresolved[key] = sorted({ast.unparse(c.func) for c in an.unresolved})
+            self.assumed_silent |= an.assumed_silent
         finally:
             self._busy.discard(key)
         self._memo[key] = toks
